@@ -224,6 +224,9 @@ def classify(case):
     return sorted(labs)
 
 
+SANITIZE = True        # thorough tier: reduced pass against an ASan build of the extensions
+SANITIZE_SCALE = 0.05
+
 SUBCHECKS = [
     Subcheck("sfile", _cases(SFILE_ENTRIES, True), check_sfile, classify, quick=2000, thorough=100000),
     Subcheck("recfile", _cases(REC_ENTRIES, False), check_recfile, classify, quick=1200, thorough=60000),
